@@ -7,7 +7,8 @@ A pattern is ordinary Python source in which
 * ``___`` as a statement matches any run of statements (only meaningful between pattern statements).
 
 Everything else (attributes, calls, literals, keyword names, parameters) must
-match exactly.  Because locals are metavariables a rule written as a pattern
+match exactly, except that a capitalised bare name in the pattern (a class) also
+matches the same class reached through a module alias (``excep.BiogemeError``).  Because locals are metavariables a rule written as a pattern
 is insensitive to renaming of locals, re-formatting, comments and docstrings.
 """
 
@@ -57,6 +58,8 @@ def m_node(p, n, b: dict) -> bool:
                 return False  # two metavariables never bind the same name
             b[p.id] = n.id
             return True
+    if isinstance(p, ast.Name) and isinstance(n, ast.Attribute) and p.id[:1].isupper() and n.attr == p.id and isinstance(n.value, ast.Name):
+        return True  # a class named in the pattern may be reached through a module alias in the code (excep.BiogemeError)
     if type(p) is not type(n):
         return False
     if isinstance(p, ast.Constant):
